@@ -81,3 +81,35 @@ package conf
 //@ func (conf *Conf) Validate
 //@   property C10
 //@   safety -ovf
+
+// C12: add fails on an existing name and otherwise stores exactly the given entry under that name; replace
+// stores exactly the given entry; delete fails on a missing name and otherwise removes exactly that name;
+// patch fails on a missing name; no other name is touched by any of them.
+
+//@ func (conf *Conf) AddPath
+//@   property C12
+//@   ensures [fails-on-existing-name] (result != nil) == old(has(conf.OptionalPaths, name))
+//@   ensures [rejected-add-changes-nothing] result != nil ==> conf.OptionalPaths == old(conf.OptionalPaths) && forall(n, string, has(conf.OptionalPaths, n) == old(has(conf.OptionalPaths, n)) && conf.OptionalPaths[n] == old(conf.OptionalPaths[n]))
+//@   ensures [stores-exactly-that-entry] result == nil ==> has(conf.OptionalPaths, name) && conf.OptionalPaths[name] == p
+//@   ensures [other-names-untouched] forall(n, string, n != name ==> has(conf.OptionalPaths, n) == old(has(conf.OptionalPaths, n)) && (has(conf.OptionalPaths, n) ==> conf.OptionalPaths[n] == old(conf.OptionalPaths[n])))
+
+//@ func (conf *Conf) ReplacePath
+//@   property C12
+//@   ensures [never-fails] result == nil
+//@   ensures [stores-exactly-that-entry] has(conf.OptionalPaths, name) && conf.OptionalPaths[name] == optional2
+//@   ensures [other-names-untouched] forall(n, string, n != name ==> has(conf.OptionalPaths, n) == old(has(conf.OptionalPaths, n)) && (has(conf.OptionalPaths, n) ==> conf.OptionalPaths[n] == old(conf.OptionalPaths[n])))
+
+//@ func (conf *Conf) RemovePath
+//@   property C12
+//@   domain ErrPathNotFound != nil
+//@   ensures [fails-on-missing-name] (result != nil) == !old(has(conf.OptionalPaths, name))
+//@   ensures [removes-that-name] result == nil ==> !has(conf.OptionalPaths, name)
+//@   ensures [other-names-untouched] forall(n, string, n != name ==> has(conf.OptionalPaths, n) == old(has(conf.OptionalPaths, n)) && (has(conf.OptionalPaths, n) ==> conf.OptionalPaths[n] == old(conf.OptionalPaths[n])))
+//@   ensures [rejected-delete-changes-nothing] result != nil ==> forall(n, string, has(conf.OptionalPaths, n) == old(has(conf.OptionalPaths, n)))
+
+//@ func (conf *Conf) PatchPath
+//@   property C12
+//@   domain ErrPathNotFound != nil
+//@   assert-call copyStructFields: old(has(conf.OptionalPaths, name)) && dest == old(conf.OptionalPaths[name]).Values && source == optional2.Values
+//@   ensures [fails-on-missing-name] (result != nil) == !old(has(conf.OptionalPaths, name))
+//@   ensures [rejected-patch-copies-nothing] result != nil ==> called(copyStructFields) == 0
